@@ -15,6 +15,7 @@ import json
 import operator
 import os
 import random
+import sys
 
 import numpy as np
 
@@ -35,7 +36,10 @@ def snap(x, depth=0):
     if isinstance(x, (list, tuple)):
         return (type(x).__name__, tuple(snap(v, depth + 1) for v in x))
     if hasattr(x, "data") and isinstance(getattr(x, "data"), list):
-        return ("obj", type(x).__name__, tuple(snap(v, depth + 1) for v in x.data))
+        # the values, and every other instance attribute (a hidden cursor or cache written by a read is a modification)
+        extra = tuple((k, snap(v, depth + 1) if isinstance(v, (np.ndarray, list, tuple)) else repr(v)[:80])
+                      for k, v in sorted(vars(x).items()) if k != "data")
+        return ("obj", type(x).__name__, tuple(snap(v, depth + 1) for v in x.data), extra)
     if hasattr(x, "real") and hasattr(x, "dual") and type(x).__name__.endswith("DualQuaternion"):
         # attribute by attribute, with the class of each part (re-binding a part to an object of another class is a
         # modification of the receiver even when the numbers agree)
@@ -297,6 +301,67 @@ def dq_part(j):
     return n
 
 
+def option_part(j):
+    """keyword options must not stick: m() ; m(option=other value) ; m() - the first and the third call return the
+    same thing and nothing process-wide has changed.  Every public method of every class whose keyword parameters
+    have simple defaults (display methods with unit / fmt / label / orient, angle accessors with unit / order ...)"""
+    import contextlib
+    import io
+    alts = {"unit": ["deg", "rad"], "units": ["deg", "rad"], "order": ["xyz", "zyx"], "fmt": ["{:.3f}", "{:10.5g}"], "label": ["X", None],
+            "orient": ["eul", "angvec"], "flip": [True], "twist": [True], "check": [False], "tol": [50], "file": [None]}
+    n = 0
+    for cname in elems.MAIN8 + elems.EXTRA:
+        C = elems.CLS[cname]
+        for name in sorted(a for a in dir(C) if not a.startswith("_") and a not in ("plot", "animate", "Rand") and a not in MUTATORS):
+            attr = inspect.getattr_static(C, name, None)
+            if isinstance(attr, (property, classmethod, staticmethod)) or not callable(getattr(C, name, None)):
+                continue
+            try:
+                sig = inspect.signature(getattr(C, name))
+            except (TypeError, ValueError):
+                continue
+            params = [p for p in list(sig.parameters.values())[1:]]
+            if any(p.default is inspect._empty and p.kind in (p.POSITIONAL_ONLY, p.POSITIONAL_OR_KEYWORD) for p in params):
+                continue
+            takes_kwargs = any(p.kind == p.VAR_KEYWORD for p in params)
+            base_kw = {"file": None} if ("file" in sig.parameters or (takes_kwargs and name in ("printline", "strline"))) else {}
+            variants = [{**base_kw, p.name: v} for p in params if p.name in alts and p.name != "file" for v in alts[p.name]]
+            if takes_kwargs:
+                variants += [{**base_kw, k: v[0]} for k, v in alts.items() if k not in ("check", "tol", "file", "flip", "twist")]
+            if not variants:
+                continue
+            for m in (1, 2):
+                x = elems.inject(cname, list(range(1, m + 1)))
+                cid = ("options", cname, name)
+                with contextlib.redirect_stdout(io.StringIO()):
+                    g0 = global_state()
+                    try:
+                        r1 = getattr(x, name)(**base_kw)
+                    except Exception:  # noqa: BLE001
+                        continue
+                    for kw in variants:
+                        try:
+                            getattr(x, name)(**kw)
+                        except Exception:  # noqa: BLE001
+                            pass
+                    try:
+                        r2 = getattr(x, name)(**base_kw)
+                        err = None
+                    except Exception as ex:  # noqa: BLE001
+                        r2, err = None, type(ex).__name__
+                n += 1
+                if global_state() != g0:
+                    j.fail("%s|%s.%s|len=%d;after-calls-with-options|process-wide-state-changed" % (PID, cname, name, m),
+                           {"kind": "options", "cls": cname, "member": name, "options": [sorted(k) for k in variants]}, cid)
+                    np.set_printoptions(**_PRINT0)
+                elif err is not None or not same_result(r1, r2):
+                    j.fail("%s|%s.%s|len=%d;after-calls-with-options|same-call-returns-something-else" % (PID, cname, name, m),
+                           {"kind": "options", "cls": cname, "member": name, "first": repr(r1)[:200], "again": repr(r2)[:200]}, cid)
+                else:
+                    j.ok(cid)
+    return n
+
+
 # ---- (c) reflection over methods and properties ------------------------------------------------
 
 SKIP_METHODS = {"plot", "animate", "printline", "Rand", "append", "extend", "insert", "pop", "clear", "reverse",
@@ -330,9 +395,45 @@ SPECIAL = {"SO3": _special_so3, "SE3": _special_se3,
 _PRINT0 = dict(np.get_printoptions())
 
 
+_LIB = {}
+
+
+def _library_classes():
+    import spatialmath
+    import spatialmath.base
+    if "classes" in _LIB:
+        return _LIB["classes"]
+    out = _LIB.setdefault("classes", [])
+    for modname, mod in sorted(sys.modules.items()):
+        if not modname.startswith("spatialmath") or mod is None:
+            continue
+        for name, obj in sorted(vars(mod).items()):
+            if inspect.isclass(obj) and getattr(obj, "__module__", "").startswith("spatialmath") and obj not in out:
+                out.append(obj)
+    return out
+
+
+def class_state():
+    """class-level and module-level mutable data of the library (dicts, lists, sets, arrays): defaults kept there are
+    shared by every object, so a call that changes them changes what LATER calls return"""
+    items = []
+    for C in _library_classes():
+        for k, v in sorted(vars(C).items()):
+            if isinstance(v, (dict, list, set, np.ndarray)) and not k.startswith("__"):
+                items.append((C.__name__, k, repr(v)[:400]))
+    if "modules" not in _LIB:
+        _LIB["modules"] = [(n, m) for n, m in sorted(sys.modules.items()) if n.startswith("spatialmath") and m is not None]
+    for modname, mod in _LIB["modules"]:
+        if True:
+            for k, v in sorted(vars(mod).items()):
+                if isinstance(v, (dict, list, set)) and not k.startswith("__") and k != "__all__":
+                    items.append((modname, k, repr(v)[:400]))
+    return repr(items)
+
+
 def global_state():
     """process-wide state a library call could leave changed (then the SAME call later returns something else)"""
-    return repr(sorted(np.get_printoptions().items(), key=lambda kv: kv[0])) + repr(sorted(np.geterr().items()))
+    return repr(sorted(np.get_printoptions().items(), key=lambda kv: kv[0])) + repr(sorted(np.geterr().items())) + class_state()
 
 
 def reflection_part(j):
@@ -511,6 +612,7 @@ def run(tier):
     n_meth = method_part(j, rd9.json)
     n_ref = reflection_part(j)
     n_ref += dq_part(j)
+    n_ref += option_part(j)
     rsmall = run_tlc("MC_SpatialMath", "SpatialMath_small", timeout=900)
     nsim = 400 if thorough else 50
     rs = run_tlc("MC_SpatialMath", "SpatialMath_sim", workers=1, simulate=nsim, depth=26,
